@@ -84,7 +84,9 @@ def run(prop, tier_, cfg, sample=None, jobs=12, bind_budget=False):
                     calls.append(lib)
                     if bname == "kernel":
                         calls.append(ker)
-                pv_cases.append(dict(id="%s-%s-%d" % (tname, bname, b0), tree=nodes, feat=feat, trace=False, calls=calls))
+                # every third batch is called from a thread with a private descriptor table (the leader holds a directory outside
+                # the root at the same descriptor numbers): the answers must not depend on the caller's context
+                pv_cases.append(dict(id="%s-%s-%d" % (tname, bname, b0), tree=nodes, feat=feat, trace=False, in_thread=((b0 // B) % 3 == 2), calls=calls))
                 index.append((tname, bname, chunk))
     # sort so that shards see one feature set contiguous
     order = sorted(range(len(pv_cases)), key=lambda i: index[i][1])
@@ -111,7 +113,7 @@ def run(prop, tier_, cfg, sample=None, jobs=12, bind_budget=False):
             pv2.append(dict(id="rerun", tree=nodes, feat=FEATS[0][1], trace=False, calls=[lib, ker]))
             idx2.append((c["tree"], "kernel", [c]))
         collect(idx2, run_pv(pv2, jobs=1, tag=prop + "r"), per_case)
-    evaluate(per_case, trees, v, stats, samples, bind_budget)
+    evaluate(per_case, trees, v, stats, samples, bind_budget, flags_too=(prop == "C04"))
     # action-level conformance: a sample of the same cases, traced on the emulated backend, must be
     # behaviours of Lookup.tla (every real relevant syscall = the model's next action)
     from lib.project import lookup_conformance
@@ -148,10 +150,14 @@ def collect(index, results, per_case):
             d["raw_" + bname] = lib
             if bname == "kernel":
                 d["kernel"] = kernel_as_outcome(c["op"], rs[pos], bodies)
+                d["raw_kref"] = rs[pos]
                 pos += 1
 
 
-def evaluate(per_case, trees, v, stats, samples, bind_budget=False):
+FL_MASK = O["RDONLY"] | O["WRONLY"] | O["RDWR"] | O["APPEND"] | O["NONBLOCK"] | O["DIRECT"] | O["SYNC"] | O["NOATIME"] | O["DIRECTORY"] | O["PATH"]
+
+
+def evaluate(per_case, trees, v, stats, samples, bind_budget=False, flags_too=False):
     nontrivial = 0
     for key, d in per_case.items():
         c = d["case"]
@@ -193,6 +199,18 @@ def evaluate(per_case, trees, v, stats, samples, bind_budget=False):
                 continue
             if got == truth:
                 stats["agree_" + bname] += 1
+                # C04: "... the same resulting object opened with the same access mode, close-on-exec flag and I/O status
+                # flags (append, non-blocking, direct, sync, noatime, directory)": F_GETFL of the returned descriptor against
+                # the raw openat2 call's (O_NOFOLLOW, which the kernel merely echoes, excluded)
+                rawk, rawl = d.get("raw_kref"), d.get("raw_" + bname)
+                if flags_too and got[0] == "ok" and rawk and rawl and rawk.get("ok") and "fl" in rawk and "fl" in rawl:
+                    a, b = (rawl["fl"] & FL_MASK, bool(rawl.get("cloexec"))), (rawk["fl"] & FL_MASK, bool(rawk.get("cloexec")))
+                    stats["flags_compared"] += 1
+                    if a != b:
+                        v.violation(dict(check="static-lookup-flags", backend=bname, op=c["op"]["op"], path=path, tree=c["tree"], got=[oct(a[0]), a[1]], want=[oct(b[0]), b[1]]),
+                                    "%s backend: %s(%r) on tree %s returns the right object but as a descriptor with F_GETFL %#o, close-on-exec %s; the openat2 call returns F_GETFL %#o, close-on-exec %s" % (
+                                        bname, c["op"], path, c["tree"], a[0], a[1], b[0], b[1]),
+                                    dict(id="replay", tree=[node_to_pv(n) for n in trees[c["tree"]]["nodes"]], feat=dict(FEATS)[bname], trace=False, calls=list(op_to_calls(c["op"], path))))
                 continue
             sig = dict(check="static-lookup", backend=bname, op=c["op"]["op"], path=path, tree=c["tree"],
                        nofollow=c["op"]["nofollow"], nosym=c["op"]["nosym"], got=list(got), want=list(truth))
@@ -225,6 +243,6 @@ def finish(prop, v, tlc, cfg, sample, stats, samples, model_violation, build_s, 
                oracle_vs_kernel_mismatch=stats["oracle_vs_kernel_mismatch"], budget_cases=stats["budget_cases"], budget_constant_drift=stats["budget_constant_drift"],
                inconclusive_eagain=stats["inconclusive_eagain"], eagain_reruns=stats["eagain_reruns"],
                lookup_model_conformance=dict(validated=stats["conf_validated"], accepted=stats["conf_accepted"], drift=stats["conf_drift"], drift_samples=stats.get("conf_samples", [])),
-               agree_kernel=stats["agree_kernel"], agree_emulated=stats["agree_emulated"], build_s=round(build_s, 1),
+               descriptor_flags_compared=stats["flags_compared"], agree_kernel=stats["agree_kernel"], agree_emulated=stats["agree_emulated"], build_s=round(build_s, 1),
                notes=v.notes[:10])
     return v, cov, wall
